@@ -50,7 +50,7 @@ P.update({
     "C12": ("exploration", "factory kind / equality checker over 8 kinds x 128 header configurations; raw inspectors vs reference header decode; full 8 x 8 holder accessor matrix",
             "For every PDU kind and every header configuration the factory's generic decode must return exactly that class, equal to the original, re-packing identically; pdu_type / is_file_directive / pdu_directive_type must agree with the reference reading of the octets (directive octet at 4+2*idw+seqw); the holder's typed accessors succeed with the identical object on the diagonal and raise TypeError elsewhere.",
             "packed octets come from the reference encoder", "DESIGN.md 5/C12"),
-    "C13": ("exploration", "history checker (conservation, exactly-once, order, idempotence) against a 12-line sequential parser model; exhaustive cut subsets x 4 append/parse schedules",
+    "C13": ("exploration", "receive-buffer re-use by the caller, queue-is-the-tail also with filler, streams built from library packet objects with the ids they report; history checker (conservation, exactly-once, order, idempotence) against a 12-line sequential parser model; exhaustive cut subsets x 4 append/parse schedules",
             "Every subset of cut positions of a small two-packet stream under four append/parse schedules, every single (thorough: pair of) cut of a three-packet stream, random streams up to 2 kB with random cuts/schedules and streams with inter-packet garbage: after every parser call returned ++ queue must equal what was appended, the returned list must equal the model's, a second parse without new data must change nothing, and at the end every packet is returned exactly once in order.",
             "schedules are orders of append/parse calls from one thread", "DESIGN.md 5/C13"),
     "C14": ("exploration", "reference-model monitor with exact integer/datetime arithmetic; exhaustive over all 65536 days and every calendar day; monotonicity checker; addition vs integer arithmetic",
@@ -79,10 +79,13 @@ P.update({
 NOT_YET = {}
 
 # additions made after the first build (monitors added in response to independently seeded changes, DESIGN.md section 10)
-SCRIB = "; hostile-caller sanitizer (every pack() result is scribbled over after a copy is handed out)"
+SCRIB = ("; hostile-caller sanitizers (every pack() result is scribbled over after a copy is handed out; decoders get bytes / bytearray "
+         "alternately and their input buffer is overwritten after the call); early cases re-visited at the end of the run")
 TECH_ADD = {
-    "C01": SCRIB, "C02": "; setter/view history monitor" + SCRIB, "C03": "; setter/view history monitor" + SCRIB,
-    "C04": "; octets produced along setter histories (pack, space-packet view) and PDUs built through setters" + SCRIB,
+    "C01": "; header setter history, composite-sibling and fresh-result monitors; constants harvested from the live modules as inputs" + SCRIB,
+    "C02": "; setter/view history monitor with injected failed operations; block-boundary sizes; crafted CRC-register-at-boundary packets" + SCRIB,
+    "C03": "; setter/view history monitor (also through the service-17 wrapper) with injected failed operations; block-boundary sizes; crafted CRC-boundary packets" + SCRIB,
+    "C04": "; octets produced along setter histories (pack, space-packet view, forwarded decoded packets) with injected failed operations; PDUs built through setters; block-boundary sizes; crafted CRC-boundary packets" + SCRIB,
     "C05": "; header re-use history (every setter, in-place id assignment); isolation monitor over earlier decoded objects" + SCRIB,
     "C06": "; construction through setters; isolation monitor (octets and accessor views of earlier decoded objects)" + SCRIB,
     "C07": "; construction through setters; isolation monitor" + SCRIB,
@@ -91,11 +94,13 @@ TECH_ADD = {
     "C11": "; untouched-sibling / built-later monitor for objects sharing the caller's configuration" + SCRIB,
     "C12": "; holder re-use history over all 64 (previous kind, new kind) transitions; isolation monitor" + SCRIB,
     "C14": "; sub-millisecond boundary grid" + SCRIB,
-    "C15": "; request-id attribute-assignment history; three packet-field construction styles" + SCRIB,
-    "C16": "; report objects built by constructor, Service1Tm.unpack and from_tm (parsed as a batch)",
+    "C15": "; request-id attribute-assignment history (whole attributes and nested in place); structured equality / hash sets of ~1500 ids; three packet-field construction styles; isolation monitor over decoded reports" + SCRIB,
+    "C16": "; report objects built by constructor, Service1Tm.unpack and from_tm (parsed as a batch) and decoded from reference-model octets; 400 neighbouring request ids in one tracker growing past 256 entries",
     "C17": SCRIB,
+    "C20": "; assignment history with aliasing and refused assignments (refusal atomicity); structured equality / hash sets; fresh-result and handed-over-field monitors; early cases re-visited at the end of the run",
+    "C10": "; crafted TLV areas, short service-1 reports with valid CRC, non-aligned field codes; early cases re-visited at the end of the run",
     "C18": "; parameter / LV object re-use across messages" + SCRIB,
-    "C19": "; widths up to 64 bits; width changes through the max_bit_width setter",
+    "C19": "; widths up to 64 bits; width changes through the max_bit_width setter; returned counts carried through a packet round trip",
 }
 for _k, _v in TECH_ADD.items():
     _c = P[_k]
